@@ -312,6 +312,9 @@ class Loops:
                 prep[hid] = SetObj(items=())
             elif isinstance(o, DictObj) and o.default_factory in ("list", "set") and o.sym is None:
                 prep[hid] = DictObj((), o.default_factory)
+            elif isinstance(o, DictObj) and o.default_factory == "set" and o.sym is not None:
+                key_ty, elem_ty, _arr = o.sym
+                prep[hid] = DictObj((), "set", (key_ty, elem_ty, z3.K(m.sort(key_ty), z3.K(m.sort(elem_ty), False))))
             else:
                 raise Unsupported(f"loop body mutates {type(o).__name__} (needs a LoopSpec) in {key}")
         # containers reachable only through an accumulating defaultdict are handled through the dict
@@ -375,6 +378,8 @@ class Loops:
                         contribs[hid].append((idx, ("items", list(obj.items))))
                     else:
                         contribs[hid].append((idx, ("symset", obj.sv)))
+                elif isinstance(obj, DictObj) and obj.sym is not None:
+                    contribs[hid].append((idx, ("symdict", obj.sym)))
                 elif isinstance(obj, DictObj):
                     contribs[hid].append((idx, ("dict", [(kk, s.heap[vv.id]) for kk, vv in obj.items])))
         # ---- build the states after the loop ------------------------------------------------
@@ -415,6 +420,9 @@ class Loops:
         # accumulators
         for hid in mutated:
             old = st.heap[hid]
+            if isinstance(old, DictObj) and (old.sym is not None or any(kind == "symdict" for _i, (kind, _c) in contribs[hid])):
+                self.summarise_symdict(ft, hid, old, contribs[hid], normal_paths, k, delta, created)
+                continue
             if isinstance(old, DictObj):
                 self.summarise_dict(ft, hid, old, contribs[hid], normal_paths, exit_paths, k, n, delta, created, rng)
                 continue
@@ -460,6 +468,35 @@ class Loops:
         if isinstance(a, (bool, int, str, type(None))) and type(a) is type(b):
             return a == b
         return False
+
+    def summarise_symdict(self, ft, hid, old, contribs, normal_paths, k, delta, created):
+        """symbolic defaultdict(set) (map key -> set): new[p][x] <=> old[p][x] or some iteration added x to bucket p"""
+        ex, m = self.ex, self.m
+        sym = old.sym
+        for _idx, (kind, c) in contribs:
+            if kind == "symdict":
+                sym = sym or c
+        if sym is None:
+            return
+        key_ty, elem_ty, _ = sym
+        if any(self._und(normal_paths[idx][0]) for idx, _c in contribs):
+            raise Unsupported("symbolic dict accumulator fed with havocked values (needs a LoopSpec)")
+        pk = z3.Const(f"p!sd{fresh_id()}", m.sort(key_ty))
+        xe = z3.Const(f"x!sd{fresh_id()}", m.sort(elem_ty))
+        disj = []
+        for idx, (kind, c) in contribs:
+            if kind != "symdict":
+                if kind == "dict" and not c:
+                    continue
+                raise Unsupported("mixed concrete / symbolic dict accumulator")
+            s = normal_paths[idx][0]
+            d = z3.And(*(delta(s) + [z3.Select(z3.Select(c[2], pk), xe)]))
+            cs = created(s)
+            disj.append(z3.Exists(cs, d) if cs else d)
+        added = z3.Exists([k], z3.Or(*disj) if len(disj) > 1 else disj[0]) if disj else z3.BoolVal(False)
+        oldsel = z3.Select(z3.Select(old.sym[2], pk), xe) if old.sym is not None else z3.BoolVal(False)
+        new = z3.Lambda([pk], z3.Lambda([xe], z3.Or(oldsel, added)))
+        ft.heap[hid] = DictObj((), "set", (key_ty, elem_ty, new))
 
     def summarise_dict(self, ft, hid, old, contribs, normal_paths, exit_paths, k, n, delta, created, rng):
         """defaultdict(list|set) used as buckets with concrete keys: every bucket is an accumulator of its own.
@@ -657,6 +694,15 @@ class Loops:
                     st.heap[cur.id] = obj
                 else:
                     ex.assign_name(st, fr, nm, st.alloc(obj))
+            elif isinstance(ty, tuple) and ty[0] == "dictset":
+                # symbolic defaultdict(set): ("dictset", key_ty, elem_ty)
+                _k, key_ty, elem_ty = ty
+                srt = z3.ArraySort(self.m.sort(key_ty), z3.ArraySort(self.m.sort(elem_ty), z3.BoolSort()))
+                arr = z3.Const(f"hv_{nm}!{fresh_id()}", srt)
+                st.created.append(arr)
+                st.undet.append(arr)
+                o = st.heap[cur.id]
+                st.heap[cur.id] = DictObj((), o.default_factory, (key_ty, elem_ty, arr))
             elif isinstance(ty, tuple) and ty[0] == "bag":
                 o = st.heap[cur.id]
                 counts = tuple(z3.Int(f"hv_{nm}_{u}!{fresh_id()}") for u in o.universe)
